@@ -263,6 +263,11 @@ def build_recipes():
     for kind in ('int', 'rfi', 'array'):
         add('gate.start_end', lambda c, k=kind: (gate.start_end, [c.array() if k == 'array' else c.sample(k)],
                                                  dict(num_start=5, num_end=3, full_output=True)))
+        # nothing to discard (negative numbers are documented as "ignored"): still a result of its own
+        add('gate.start_end', lambda c, k=kind: (gate.start_end, [c.array() if k == 'array' else c.sample(k)],
+                                                 dict(num_start=0, num_end=0, full_output=True)))
+        add('gate.start_end', lambda c, k=kind: (gate.start_end, [c.array() if k == 'array' else c.sample(k)],
+                                                 dict(num_start=-2, num_end=0)))
         add('gate.high_low', lambda c, k=kind: (gate.high_low, [c.array() if k == 'array' else c.sample(k)],
                                                 dict(channels=_own(c, [0, 2] if k == 'array' else ['FSC-H', 'FL1-H']), full_output=True)))
         add('gate.high_low', lambda c, k=kind: (gate.high_low, [c.array() if k == 'array' else c.sample(k)], dict(high=900, low=2)))
@@ -418,6 +423,15 @@ def build_recipes():
             return (fplot.violin, [data], dict(channel=ch, positions=_own(c, [0.0, 10.0]), xscale='log', yscale='log', num_bins=20))
         add('plot.violin', rec_v0)
 
+        def rec_v0l(c, k=kind):
+            # per-violin parameters given as lists (one entry per violin)
+            fn, args, kw = rec_v0(c, k)
+            kw.update(violin_kwargs=_own(c, [dict(facecolor='gray'), dict(facecolor='red')]),
+                      draw_summary_stat_kwargs=_own(c, [dict(color='k'), dict(color='b')]),
+                      upper_trim_fraction=_own(c, [0.01, 0.05]), lower_trim_fraction=_own(c, [0.02, 0.0]))
+            return fn, args, kw
+        add('plot.violin', rec_v0l)
+
         def rec_vd0(c, k=kind):
             if k == 'array':
                 data = _own(c, [np.array([3.0, 1.0, 2.0, 9.0, 4.0]), np.array([30.0, 10.0, 20.0, 90.0, 5.0]), np.array([7.0, 6.0, 5.0])])
@@ -547,6 +561,9 @@ def check(case, obs):
             src = ins[0]
             for rr in res[:2]:
                 if rr is src:
+                    # a gate or a conversion hands back a sample of its own, even when it had nothing to do
+                    obs.claim('no_share', not name.startswith(('gate.', 'transform.')),
+                              lambda: '%s: the result is the input object itself' % name)
                     continue
                 obs.claim('no_share', not np.shares_memory(rr, src) or rr.size == 0,
                           lambda: '%s: result shares event memory with its input' % name)
